@@ -378,7 +378,8 @@ class FunctionTranslator:
                 if not ok:
                     return False
             elif not isinstance(n, (ast.Constant, ast.JoinedStr, ast.FormattedValue, ast.Name, ast.Attribute,
-                                    ast.Subscript, ast.BinOp, ast.Load, ast.Add, ast.Mod, ast.Tuple, ast.keyword)):
+                                    ast.Subscript, ast.Slice, ast.BinOp, ast.Load, ast.Add, ast.Sub, ast.Mod, ast.Tuple, ast.keyword,
+                                    ast.UnaryOp, ast.USub)):
                 return False
         return True
 
